@@ -38,6 +38,8 @@ pub const TS_SNIPPETS: &[&str] = &[
   "console.log(1); // ast-grep-ignore: no-console",
   "const arr = [1, 2, 3].map((n) => n + 1);",
   "const tight = [1,2,3];",
+  "console.log(console.log(1));",
+  "if ((a == b) == c) {\n  foo(foo(1, 2), 3);\n}",
 ];
 
 pub const JS_SNIPPETS: &[&str] = &[
@@ -59,6 +61,8 @@ pub const JS_SNIPPETS: &[&str] = &[
   "eval('1 + 1');",
   "const arr = [1, 2, 3].map((n) => n + 1);",
   "const tight = [1,2,3];",
+  "console.log(console.log(1));",
+  "if ((a == b) == c) {\n  foo(foo(1, 2), 3);\n}",
   "alert(123);",
 ];
 
@@ -81,6 +85,7 @@ pub const PY_SNIPPETS: &[&str] = &[
   "eval(\"1 + 1\")",
   "try:\n    risky()\nexcept Exception as e:\n    print(e)",
   "xs = [n + 1 for n in range(3)]",
+  "print(print(1))",
 ];
 
 pub const RS_SNIPPETS: &[&str] = &[
